@@ -163,6 +163,33 @@ def _default(col):
     return _arg(d, col.get("dtype")) if d is not None else None
 
 
+# custom parsers (user callbacks) from a small total family; "inplace" variants write into the object they are
+# handed and return it - what many user parsers do - so a working copy that shares memory with the caller's data shows
+def _parser_fn(kind, colname=None):
+    def abs_pure(s):
+        return s.abs()
+
+    def abs_inplace(s):
+        s.iloc[:] = s.abs().to_numpy()
+        return s
+
+    def frame_abs_pure(df):
+        return df.assign(**{colname: df[colname].abs()})
+
+    def frame_abs_inplace(df):
+        df.loc[:, colname] = df[colname].abs().to_numpy()
+        return df
+
+    return {"abs": abs_pure, "abs_inplace": abs_inplace, "frame_abs": frame_abs_pure,
+            "frame_abs_inplace": frame_abs_inplace}[kind]
+
+
+def build_parsers(ps):
+    import pandera as pa
+
+    return [pa.Parser(_parser_fn(p["kind"], p.get("column"))) for p in (ps or [])]
+
+
 def pandas_column(col, with_name=False):
     import pandera as pa
 
@@ -175,6 +202,8 @@ def pandas_column(col, with_name=False):
     )
     if col.get("drop_invalid_rows"):
         kw["drop_invalid_rows"] = True
+    if col.get("parsers"):
+        kw["parsers"] = build_parsers(col["parsers"])
     if with_name:
         kw["name"] = col["name"]
     return pa.Column(**kw)
@@ -206,6 +235,8 @@ def pandas_schema(spec):
         kw = {}
         if spec.get("drop_invalid_rows"):
             kw["drop_invalid_rows"] = True
+        if col.get("parsers"):
+            kw["parsers"] = build_parsers(col["parsers"])
         return pa.SeriesSchema(
             dtype=_PD_DTYPE[col["dtype"]] if col.get("dtype") else None,
             checks=[build_check(c, col.get("dtype")) for c in col.get("checks", [])],
@@ -225,6 +256,7 @@ def pandas_schema(spec):
         unique_column_names=spec.get("unique_column_names", False),
         add_missing_columns=spec.get("add_missing_columns", False),
         drop_invalid_rows=spec.get("drop_invalid_rows", False),
+        **({"parsers": build_parsers(spec["parsers"])} if spec.get("parsers") else {}),
     )
 
 
